@@ -55,7 +55,7 @@ def run(prop, tier, seed, scratch, replay=None):
         required.append("SendDup")
     if '"Lock"' in cfgtext:
         required.append("Unlock")
-    cov = vlib.op_histogram(traces, required, cfg)
+    cov = vlib.op_histogram(traces, required, cfg, probe=lambda op: vlib.op_reachable(scratch, "Spend.tla", cfg, op))
     simtr = scratch.path("sim.ndjson")
     sim = vlib.run_tlc(scratch, "Spend.tla", "MC_Spend_sim.cfg", simulate=NSIM[tier], depth=29, seed=seed,
                        out_traces=simtr, tag="sim", timeout=1800)
